@@ -152,6 +152,13 @@ class _Canon(ast.NodeTransformer):
                     self.stats['canon_plus_zero'] = self.stats.get('canon_plus_zero', 0) + 1
                     return a_
         n = self._fold_percent(n)
+        # ('20' if c else '19') + x   ->   '20' + x if c else '19' + x     (a constant prefix chosen by a test: one reading)
+        if isinstance(n.op, ast.Add) and isinstance(n.left, ast.IfExp) and isinstance(n.left.body, ast.Constant) and isinstance(n.left.orelse, ast.Constant) \
+                and isinstance(n.left.body.value, str) and isinstance(n.left.orelse.value, str) and isinstance(n.right, ast.Name):
+            self.stats['canon_distribute_prefix'] = self.stats.get('canon_distribute_prefix', 0) + 1
+            return ast.copy_location(ast.IfExp(test=n.left.test,
+                                               body=ast.copy_location(ast.BinOp(left=n.left.body, op=ast.Add(), right=clone(n.right)), n),
+                                               orelse=ast.copy_location(ast.BinOp(left=n.left.orelse, op=ast.Add(), right=clone(n.right)), n)), n)
         if isinstance(n.op, (ast.Add, ast.Mult)) and isinstance(n.left, ast.Constant) and type(n.left.value) is int \
                 and not isinstance(n.right, ast.Constant):
             n.left, n.right = n.right, n.left
@@ -263,6 +270,32 @@ class _Canon(ast.NodeTransformer):
             n.body, n.orelse = n.orelse, []
             self.stats['canon_if_pass_else'] = self.stats.get('canon_if_pass_else', 0) + 1
             return n
+        # a pure guard around a dispatch chain on one key (no else anywhere):
+        #     if G:                                   if G and K == 'a': A
+        #         if K == 'a': A            ->        elif G and K == 'b': B
+        #         elif K == 'b': B
+        if not n.orelse and len(n.body) == 1 and isinstance(n.body[0], ast.If) and is_pure(n.test) and not isinstance(n.test, ast.Compare):
+            arms, cur, keys = [], n.body[0], set()
+            while True:
+                t = cur.test
+                if not (isinstance(t, ast.Compare) and len(t.ops) == 1 and isinstance(t.ops[0], ast.Eq) and isinstance(t.comparators[0], ast.Constant)
+                        and isinstance(t.comparators[0].value, str) and is_pure(t.left)):
+                    arms = None
+                    break
+                keys.add(_unparse(t.left))
+                arms.append(cur)
+                if len(cur.orelse) == 1 and isinstance(cur.orelse[0], ast.If):
+                    cur = cur.orelse[0]
+                elif cur.orelse:
+                    arms = None
+                    break
+                else:
+                    break
+            if arms and len(arms) >= 2 and len(keys) == 1:
+                for a_ in arms:
+                    a_.test = ast.copy_location(ast.BoolOp(op=ast.And(), values=[clone(n.test), a_.test]), a_.test)
+                self.stats['canon_guard_distributed'] = self.stats.get('canon_guard_distributed', 0) + 1
+                return ast.copy_location(arms[0], n)
         # if not c: A else: B   ->   if c: B else: A     (an elif chain in the else arm is left alone)
         if isinstance(n.test, ast.UnaryOp) and isinstance(n.test.op, ast.Not) and n.orelse \
                 and not (len(n.orelse) == 1 and isinstance(n.orelse[0], ast.If)):
@@ -1433,30 +1466,64 @@ def resolve_name_dispatch(tree, cls, fn, stats):
                         and _unparse(a.value.func.value) in tabs and is_pure(a.value.args[0])):
                     continue
                 h = a.targets[0].id
+                key = a.value.args[0]
+                # fallback tables tried when the first has no entry:   if h is None [and C]: h = T2.get(K)
+                fallbacks = []
+                j = i
+                while j < len(blk):
+                    fb = blk[j]
+                    if not (isinstance(fb, ast.If) and not fb.orelse and len(fb.body) == 1):
+                        break
+                    t_, cond_ = fb.test, None
+                    if isinstance(t_, ast.BoolOp) and isinstance(t_.op, ast.And) and len(t_.values) == 2:
+                        t_, cond_ = t_.values[0], t_.values[1]
+                    st_ = fb.body[0]
+                    if not (isinstance(t_, ast.Compare) and len(t_.ops) == 1 and isinstance(t_.ops[0], ast.Is) and isinstance(t_.left, ast.Name) and t_.left.id == h
+                            and isinstance(t_.comparators[0], ast.Constant) and t_.comparators[0].value is None
+                            and (cond_ is None or (is_pure(cond_) and not any(isinstance(x, ast.Name) and x.id == h for x in ast.walk(cond_))))
+                            and isinstance(st_, ast.Assign) and len(st_.targets) == 1 and isinstance(st_.targets[0], ast.Name) and st_.targets[0].id == h
+                            and isinstance(st_.value, ast.Call) and isinstance(st_.value.func, ast.Attribute) and st_.value.func.attr == 'get'
+                            and len(st_.value.args) == 1 and _unparse(st_.value.func.value) in tabs and _unparse(st_.value.args[0]) == _unparse(key)):
+                        break
+                    fallbacks.append((cond_, st_.value.func.value))
+                    j += 1
+                if j >= len(blk):
+                    continue
+                b = blk[j]
                 if not (isinstance(b, ast.If) and not b.orelse and isinstance(b.test, ast.Compare) and len(b.test.ops) == 1
                         and isinstance(b.test.ops[0], ast.IsNot) and isinstance(b.test.left, ast.Name) and b.test.left.id == h
                         and isinstance(b.test.comparators[0], ast.Constant) and b.test.comparators[0].value is None):
                     continue
                 uses = [x for x in ast.walk(fn) if isinstance(x, ast.Name) and x.id == h]
                 inside = [x for st in b.body for x in ast.walk(st) if isinstance(x, ast.Name) and x.id == h]
-                if len(uses) != len(inside) + 2 or any(isinstance(x.ctx, ast.Store) for x in inside):
+                if len(uses) != len(inside) + 2 + 2 * len(fallbacks) or any(isinstance(x.ctx, ast.Store) for x in inside):
                     continue
-                key = a.value.args[0]
                 # the key expression must not be changed by the body before the use (pure expression over names the body does not store)
                 stored = {x.id for st in b.body for x in ast.walk(st) if isinstance(x, ast.Name) and isinstance(x.ctx, ast.Store)}
                 if stored & {x.id for x in ast.walk(key) if isinstance(x, ast.Name)}:
                     continue
                 tref = a.value.func.value
 
-                class R(ast.NodeTransformer):
-                    def visit_Name(self, n):
-                        if n.id == h and isinstance(n.ctx, ast.Load):
-                            return ast.copy_location(ast.Subscript(value=clone(tref), slice=clone(key), ctx=ast.Load()), n)
-                        return n
-                body = [R().visit(st) for st in b.body]
-                new = ast.If(test=ast.Compare(left=clone(key), ops=[ast.In()], comparators=[clone(tref)]), body=body, orelse=[])
-                ast.copy_location(new, b)
-                blk[i - 1:i + 1] = [new]
+                def arm(tref_, cond_):
+                    class R(ast.NodeTransformer):
+                        def visit_Name(self, n):
+                            if n.id == h and isinstance(n.ctx, ast.Load):
+                                return ast.copy_location(ast.Subscript(value=clone(tref_), slice=clone(key), ctx=ast.Load()), n)
+                            return n
+                    body = [R().visit(clone(st)) for st in b.body]
+                    test = ast.Compare(left=clone(key), ops=[ast.In()], comparators=[clone(tref_)])
+                    node = ast.copy_location(ast.If(test=test, body=body, orelse=[]), b)
+                    if cond_ is not None:
+                        # (kept as its own level: the table test below it is then expanded like any other)
+                        node = ast.copy_location(ast.If(test=clone(cond_), body=[node], orelse=[]), b)
+                    return node
+                new = arm(tref, None)
+                cur_ = new
+                for cond_, tref_ in fallbacks:
+                    nxt = arm(tref_, cond_)
+                    cur_.orelse = [nxt]
+                    cur_ = nxt
+                blk[i - 1:j + 1] = [new]
                 did = True
     if did:
         ast.fix_missing_locations(fn)
@@ -2033,6 +2100,55 @@ def resolve_function_table(tree, fn, stats):
                     chain = [ast.copy_location(node, b)]
                 blk[i - 1:i + 1] = chain
                 stats['function_tables_expanded'] = stats.get('function_tables_expanded', 0) + 1
+    # the partial form: a key that is not in the table gives None, which is tested before the call
+    #     h = T.get(K)  [if C else None]        if C:  if K == 'a': ..fa(args)..  elif ..  else: S
+    #     if h is None: S (leaves)       ==>    else: S
+    #     ..h(args)..
+    for owner in ast.walk(fn):
+        for field in ('body', 'orelse', 'finalbody'):
+            blk = getattr(owner, field, None)
+            if not isinstance(blk, list) or len(blk) < 3 or not isinstance(blk[0], ast.stmt):
+                continue
+            i = 0
+            while i + 2 < len(blk):
+                a, b, c = blk[i], blk[i + 1], blk[i + 2]
+                i += 1
+                if not (isinstance(a, ast.Assign) and len(a.targets) == 1 and isinstance(a.targets[0], ast.Name)):
+                    continue
+                val, cond = a.value, None
+                if isinstance(val, ast.IfExp) and isinstance(val.orelse, ast.Constant) and val.orelse.value is None and is_pure(val.test):
+                    val, cond = val.body, val.test
+                if not (isinstance(val, ast.Call) and isinstance(val.func, ast.Attribute) and val.func.attr == 'get' and isinstance(val.func.value, ast.Name)
+                        and val.func.value.id in tabs and len(val.args) == 1 and not val.keywords and is_pure(val.args[0])):
+                    continue
+                h = a.targets[0].id
+                if not (isinstance(b, ast.If) and not b.orelse and isinstance(b.test, ast.Compare) and len(b.test.ops) == 1 and isinstance(b.test.ops[0], ast.Is)
+                        and isinstance(b.test.left, ast.Name) and b.test.left.id == h and isinstance(b.test.comparators[0], ast.Constant)
+                        and b.test.comparators[0].value is None and b.body and isinstance(b.body[-1], (ast.Raise, ast.Return))):
+                    continue
+                calls = [x for x in ast.walk(c) if isinstance(x, ast.Call) and isinstance(x.func, ast.Name) and x.func.id == h]
+                if len(calls) != 1 or not isinstance(c, (ast.Return, ast.Expr, ast.Assign, ast.AugAssign)):
+                    continue
+                if sum(1 for x in ast.walk(fn) if isinstance(x, ast.Name) and x.id == h) != 3:
+                    continue
+                key = val.args[0]
+                d = tabs[val.func.value.id]
+
+                def with_callee2(name, c=c, h=h):
+                    st2 = clone(c)
+                    for x in ast.walk(st2):
+                        if isinstance(x, ast.Call) and isinstance(x.func, ast.Name) and x.func.id == h:
+                            x.func = ast.copy_location(ast.Name(id=name, ctx=ast.Load()), x.func)
+                    return st2
+                chain = [clone(x) for x in b.body]
+                for k, v in reversed(list(zip(d.keys, d.values))):
+                    node = ast.If(test=ast.Compare(left=clone(key), ops=[ast.Eq()], comparators=[ast.Constant(value=k.value)]),
+                                  body=[with_callee2(v.id)], orelse=chain)
+                    chain = [ast.copy_location(node, c)]
+                if cond is not None:
+                    chain = [ast.copy_location(ast.If(test=clone(cond), body=chain, orelse=[clone(x) for x in b.body]), c)]
+                blk[i - 1:i + 2] = chain
+                stats['function_tables_expanded'] = stats.get('function_tables_expanded', 0) + 1
     # a table that is not read any more has been expanded at every use: its definition goes (and with it the last
     # references to the handlers, which the inliner has placed at their call sites)
     for nm in list(tabs):
@@ -2194,6 +2310,21 @@ def _const_set(v):
     return None
 
 
+def _fold_module_const(v, binds):
+    """the literal a module-level constant expression stands for (names of earlier constants, + of tuples / strings), or None"""
+    if _const_tree(v):
+        return v
+    if isinstance(v, ast.Name) and v.id in binds:
+        return binds[v.id]
+    if isinstance(v, ast.BinOp) and isinstance(v.op, ast.Add):
+        l, r = _fold_module_const(v.left, binds), _fold_module_const(v.right, binds)
+        if isinstance(l, ast.Tuple) and isinstance(r, ast.Tuple):
+            return ast.copy_location(ast.Tuple(elts=[clone(x) for x in l.elts + r.elts], ctx=ast.Load()), v)
+        if isinstance(l, ast.Constant) and isinstance(r, ast.Constant) and isinstance(l.value, str) and isinstance(r.value, str):
+            return ast.copy_location(ast.Constant(value=l.value + r.value), v)
+    return None
+
+
 def propagate_module_constants(tree, stats):
     """N6: a module-level name bound exactly once to a string or to a tuple of strings / tuples (immutable) and never
     rebound is replaced by its value inside functions - a template or a table moved to module level reads like the
@@ -2206,6 +2337,10 @@ def propagate_module_constants(tree, stats):
             counts[st.targets[0].id] = counts.get(st.targets[0].id, 0) + 1
             if _const_tree(st.value):
                 binds[st.targets[0].id] = st.value
+            elif _fold_module_const(st.value, binds) is not None:
+                # a constant built from earlier constants:  B = A + ('x',)
+                binds[st.targets[0].id] = _fold_module_const(st.value, binds)
+                stats['module_constants_folded'] = stats.get('module_constants_folded', 0) + 1
             elif _const_set(st.value) is not None:
                 # a constant set: only its use as the right side of in / not in is replaced (by the tuple of its members)
                 sets[st.targets[0].id] = ast.Tuple(elts=list(_const_set(st.value)), ctx=ast.Load())
@@ -2313,10 +2448,10 @@ def normalize_module(modname, tree, stats, pkg_dir=None):
     # two passes: what the first one expands (a table of handlers, a holder object) gives the second one calls to inline
     resolve_assoc_tables(tree, stats)
     for _outer in range(2):
-        before = tuple(stats.get(k, 0) for k in ('function_tables_expanded', 'holders_eliminated', 'table_dispatch_expanded', 'getattr_const'))
+        before = tuple(stats.get(k, 0) for k in ('function_tables_expanded', 'holders_eliminated', 'table_dispatch_expanded', 'getattr_const', 'inlined_expr_helpers', 'inlined_stmt_helpers'))
         _normalize_pass(modname, tree, stats, pkg_dir)
         propagate_module_constants(tree, stats)
-        if tuple(stats.get(k, 0) for k in ('function_tables_expanded', 'holders_eliminated', 'table_dispatch_expanded', 'getattr_const')) == before:
+        if tuple(stats.get(k, 0) for k in ('function_tables_expanded', 'holders_eliminated', 'table_dispatch_expanded', 'getattr_const', 'inlined_expr_helpers', 'inlined_stmt_helpers')) == before:
             break
     _Canon(stats).visit(tree)
     ast.fix_missing_locations(tree)
@@ -2389,7 +2524,7 @@ def _normalize_pass(modname, tree, stats, pkg_dir):
                 # a private helper that is no longer referenced anywhere in the module was expanded at every call
                 # site: its body has been analysed in context, the stand-alone definition is dropped
                 for nm, (hf, _ism) in list(inl.helpers.items()):
-                    if not nm.startswith('_') or nm.startswith('__') or not inl.expanded.get(nm):
+                    if not nm.startswith('_') or (nm.startswith('__') and nm.endswith('__')) or not inl.expanded.get(nm):
                         continue
                     refs = 0
                     for x in ast.walk(tree):
@@ -2400,7 +2535,7 @@ def _normalize_pass(modname, tree, stats, pkg_dir):
                         elif isinstance(x, ast.Name) and x.id == nm:
                             refs += 1
                     inside = sum(1 for x in ast.walk(hf) if (isinstance(x, ast.Attribute) and x.attr == nm) or (isinstance(x, ast.Name) and x.id == nm))
-                    if refs - inside == 0 and not _used_elsewhere(pkg_dir, modname, nm):
+                    if refs - inside == 0 and (nm.startswith('__') or not _used_elsewhere(pkg_dir, modname, nm)):      # (`__x` is private to its class by name mangling)
                         for owner in [tree] + [c for c in tree.body if isinstance(c, ast.ClassDef)]:
                             if hf in owner.body:
                                 owner.body.remove(hf)
@@ -2434,6 +2569,64 @@ def _normalize_pass(modname, tree, stats, pkg_dir):
             seen.add(nxt.name)
             cur = nxt
         by_cls[cname] = C.mod_summaries(chain)
+    # class-level constants (a tuple of strings, a string bound once in the class body and stored to nowhere): a method that
+    # reads self.NAME / Cls.NAME reads the literal
+    cconst = {}
+    for cname, cls_ in classes.items():
+        for st in cls_.body:
+            if isinstance(st, ast.Assign) and len(st.targets) == 1 and isinstance(st.targets[0], ast.Name) and (_const_tree(st.value) or _const_set(st.value) is not None):
+                nm = st.targets[0].id
+                if sum(1 for s2 in cls_.body if isinstance(s2, ast.Assign) and any(isinstance(t, ast.Name) and t.id == nm for t in s2.targets)) != 1:
+                    continue
+                if any(isinstance(x, ast.Attribute) and x.attr == nm and isinstance(x.ctx, (ast.Store, ast.Del)) for x in ast.walk(tree)):
+                    continue
+                if any(isinstance(x, ast.Call) and isinstance(x.func, ast.Attribute) and isinstance(x.func.value, ast.Attribute) and x.func.value.attr == nm
+                       for x in ast.walk(tree)):
+                    continue
+                val = st.value if _const_tree(st.value) else ast.Tuple(elts=list(_const_set(st.value)), ctx=ast.Load())
+                cconst[(cname, nm)] = (val, _const_tree(st.value))
+    if cconst:
+        def chain_of(cname):
+            out, cur, seen_ = [cname], classes.get(cname), {cname}
+            while cur is not None:
+                nxt = None
+                for b in cur.bases:
+                    bn = b.id if isinstance(b, ast.Name) else (b.attr if isinstance(b, ast.Attribute) else None)
+                    if bn in classes and bn not in seen_:
+                        nxt = bn
+                if nxt is None:
+                    break
+                out.append(nxt)
+                seen_.add(nxt)
+                cur = classes[nxt]
+            return out
+        for q, f, _m in funcs:
+            if '.' not in q:
+                continue
+            ch = chain_of(q.split('.')[0])
+
+            class CC(ast.NodeTransformer):
+                def visit_Compare(self, n):
+                    self.generic_visit(n)
+                    return n
+
+                def visit_Attribute(self, n):
+                    self.generic_visit(n)
+                    if isinstance(n.ctx, ast.Load) and isinstance(n.value, ast.Name) and (n.value.id == 'self' or n.value.id in ch):
+                        for c_ in ch:
+                            if (c_, n.attr) in cconst:
+                                val, plain = cconst[(c_, n.attr)]
+                                par = getattr(n, '_cc_parent', None)
+                                if plain or (isinstance(par, ast.Compare) and len(par.ops) == 1 and isinstance(par.ops[0], (ast.In, ast.NotIn)) and par.comparators[0] is n):
+                                    stats['class_constants_inlined'] = stats.get('class_constants_inlined', 0) + 1
+                                    return ast.copy_location(clone(val), n)
+                                break
+                    return n
+            for x in ast.walk(f):
+                for ch_ in ast.iter_child_nodes(x):
+                    ch_._cc_parent = x
+            CC().visit(f)
+            ast.fix_missing_locations(f)
     for q, f, _m in funcs:
         ms = by_cls.get(q.split('.')[0]) if '.' in q else None
         cls = classes.get(q.split('.')[0]) if '.' in q else None
